@@ -75,13 +75,23 @@ def handlePipe (g : PipeDrv) : List String → PipeDrv × String
     | none => (g, "bad-args")
   | ["pipe.quiesce"] => ({ g with sys := apply Aes.enc Aes.dec g.cfg g.sys .quiesce }, "ok")
   | ["pipe.crash"] => ({ g with sys := apply Aes.enc Aes.dec g.cfg g.sys .crash }, "ok")
+  | ["pipe.advance"] =>
+    let sys := advance Aes.enc Aes.dec g.cfg 400 g.sys
+    let labels := (List.range sys.threads.length).filterMap (fun i =>
+      match sys.threads[i]? with
+      | some t => if isDone t then none else
+          match nextLabel g.cfg t with
+          | some (op, key) => some s!"{i}:{op}:{key}"
+          | none => some s!"{i}:internal:-"
+      | none => none)
+    ({ g with sys := sys }, s!"labels={joinLines labels}")
   | ["pipe.threads"] => (g, s!"threads={joinLines (g.sys.threads.map threadTag)}")
   | ["pipe.state"] =>
     let s := g.sys
     let newE := s.emitted.drop g.seenEmitted
     let newP := s.published.drop g.seenPublished
     ({ g with seenEmitted := s.emitted.length, seenPublished := s.published.length },
-     s!"devices={joinLines (sortStrs (s.db.devices.map devLine))} inbox={joinLines (sortStrs (s.db.inbox.map inLine))} outbox={joinLines (sortStrs (s.db.outbox.map outLine))} emitted={joinLines (newE.map downLine)} published={joinLines (sortStrs (newP.map pubLine))}")
+     s!"devices={joinLines (sortStrs (s.db.devices.map devLine))} inbox={joinLines (sortStrs (s.db.inbox.map inLine))} outbox={joinLines (sortStrs (s.db.outbox.map outLine))} emitted={joinLines (sortStrs (newE.map downLine))} published={joinLines (sortStrs (newP.map pubLine))}")
   | _ => (g, "bad-args")
 
 /-- `join.tx appkey= app=<wire hex> dev=<wire hex> nonce=<wire hex>`: the join-request of a conformant device (Spec). -/
@@ -100,6 +110,13 @@ def handleJoinRx (toks : List String) : String :=
     let nwk := Spec.Lorawan.sessionKey Aes.enc appKey 1 j.appNonceWire j.netIDWire (getH m "nonce")
     let apps := Spec.Lorawan.sessionKey Aes.enc appKey 2 j.appNonceWire j.netIDWire (getH m "nonce")
     s!"an={xh j.appNonceWire} netid={xh j.netIDWire} addr={j.devAddr} dl={j.dlSettings.toNat} rxd={j.rxDelay.toNat} nwk={xh nwk} apps={xh apps}"
+
+/-- `join.enc appkey= an= netid= nwkid= nwkaddr= rx1= rx2= rxd=`: the model's EncodeJoinAccept. -/
+def handleJoinEnc (toks : List String) : String :=
+  let m := kvs toks
+  let p := { Model.Phy.PHY.new Model.Phy.mtJoinAccept with
+    joinAcc := ⟨getH m "an", getN m "netid", ⟨getN m "nwkid", getN m "nwkaddr"⟩, ⟨getN m "rx1", getN m "rx2"⟩, getN m "rxd"⟩ }
+  bytesRes (Model.Phy.encodeJoinAccept Aes.enc Aes.dec (getH m "appkey") p)
 
 end Driver
 end LospanVerif
